@@ -280,15 +280,33 @@ def r16_5(ctx):
                     axes.append(('tensordot', src(e1), n))
             elif nm == '_modek_tensordot_sparse' and len(n.args) >= 3:
                 axes.append(('sparse', src(n.args[2]), n))
-            elif nm == 'np.rollaxis' and len(n.args) >= 3:
+            elif nm in ('np.rollaxis', 'np.moveaxis') and len(n.args) >= 3:
                 axes.append(('identity', src(n.args[1]), n))
                 ok = isinstance(n.args[2], ast.Constant) and n.args[2].value == 0
                 ctx.decide('R16.5', 'pyiga.tensor.apply_tprod', 'identity placeholder rolls the axis to the front', ok, n,
                            'every branch must leave the processed axis in front')
     ctx.floor('R16.5', 'branches of the apply_tprod sweep', len(axes), 3)
     vals = {a for (_k, a, _n) in axes}
-    ctx.decide('R16.5', 'pyiga.tensor.apply_tprod', 'all branches process axis ' + '/'.join(sorted(vals)),
-               len(vals) == 1, axes[0][2], 'dense, sparse/operator and identity branches must address the same axis')
+
+    def axis_form(t):
+        from sa import affine
+        try:
+            lin = affine.from_ast(ast.parse(t, mode='eval').body, opaque=False)
+        except (affine.NonAffine, SyntaxError):
+            return None
+        return (tuple(sorted((k, str(v)) for k, v in lin.c.items())), str(lin.k))
+    forms = {a: axis_form(a) for a in vals}
+    if any(v is None for v in forms.values()):
+        same = True if len(vals) == 1 else None
+    else:
+        same = len(set(forms.values())) == 1
+    allforms = [forms.get(a) for (_k, a, _n) in axes]
+    major = max(allforms, key=lambda fm: allforms.count(fm))
+    odd = [(k, a, nn) for (k, a, nn) in axes if forms.get(a) != major]
+    ctx.decide('R16.5', 'pyiga.tensor.apply_tprod', 'all branches of the sweep process the same axis',
+               same, odd[0][2] if odd else axes[0][2],
+               'dense, sparse/operator and identity branches must address the same axis (A may have trailing axes, so a negative index is '
+               'not the axis len(ops)-1); axes used: ' + ', '.join('%s: %s' % (k, a) for k, a, _ in axes), definite=True)
     it = src(loop[0].iter)
     ctx.decide('R16.5', 'pyiga.tensor.apply_tprod', 'sweep order ' + it,
                it in ('reversed(range(n))', 'range(n - 1, -1, -1)') or None, loop[0],
